@@ -553,7 +553,10 @@ func ruleExitSequence(c *Ctx, dv *dev) {
 				if !dv.isFieldLoad(e.Args[0], "sigs") {
 					bad = "a send on something other than Device.sigs"
 				} else if v, ok := e.Args[1].StripConv().IsConst(); !ok || sigint == nil || !constant.Compare(v, token.EQL, sigint) {
-					bad = "the value sent is not syscall.SIGINT"
+					// os.Interrupt is the same signal by definition (`var Interrupt Signal = syscall.SIGINT`)
+					if t := e.Args[1].StripConv(); !(t.Op == "load" && t.Args[0].Op == "global" && t.Args[0].Obj != nil && t.Args[0].Obj.Pkg() != nil && t.Args[0].Obj.Pkg().Path() == "os" && t.Args[0].Obj.Name() == "Interrupt") {
+						bad = "the value sent is not syscall.SIGINT"
+					}
 				}
 			}
 			ret, okR := eval(p.Ret[0])
